@@ -41,7 +41,7 @@
                        a node (the proofs are about the lite pass; [lite = full] is a per-tree check).
    Oracles: cat_in (Model/CharClass.v), is_word_char = syntax.IsWordChar, is_ecma_word_char =
    syntax.IsECMAWordChar. *)
-From Verif Require Import Base.Prelude Gen.ParseLitGen Model.ParseLit Model.CharClass Model.Parser.
+From Verif Require Import Base.Prelude Gen.ParseLitGen Model.Tree Model.ParseLit Model.CharClass Model.Parser.
 
 Definition T_Boundary : Z := 16.
 Definition T_Nonboundary : Z := 17.
@@ -116,6 +116,68 @@ Definition fo_kids_eqb (l1 l2 : list rnode) : bool :=
      | x :: r1, y :: r2 => fo_rnode_eqb x y && go r1 r2
      | _, _ => false
      end) l1 l2.
+
+(* ---------------------------------------------------------------- the shape facts of a parsed tree the theorems
+   of Properties/C05.v assume ([fo_wf], checked per tree by leg c05-opt): arities, loop counts, set nodes carry a
+   canonical set without a bitmap, literals are not empty, no IgnoreCase bit outside back-references and captures
+   (reduce clears it, tree.go:488-490; the root capture is never reduced) *)
+Definition lk_of (t : Z) : option (ckind * lkind) :=
+  if t =? 3 then Some (COne, LGreedy) else if t =? 4 then Some (CNotone, LGreedy) else if t =? 5 then Some (CSet, LGreedy)
+  else if t =? 6 then Some (COne, LLazy) else if t =? 7 then Some (CNotone, LLazy) else if t =? 8 then Some (CSet, LLazy)
+  else if t =? 43 then Some (COne, LAtomic) else if t =? 44 then Some (CNotone, LAtomic) else if t =? 45 then Some (CSet, LAtomic)
+  else None.
+
+
+Definition fo_is_leaf_t (t : Z) : bool :=
+  match lk_of t with
+  | Some _ => true
+  | None => (t =? 9) || (t =? 10) || (t =? 11) || (t =? 12) || (t =? 13) || (t =? 22) || (t =? 23) || (t =? 46) ||
+            match anchor_of_code t with Some _ => true | None => false end
+  end.
+Definition fo_arity_ok (t : Z) (nk : nat) : bool :=
+  if fo_is_leaf_t t then Nat.eqb nk 0
+  else if (t =? 26) || (t =? 27) || (t =? 28) || (t =? 30) || (t =? 31) || (t =? 32) then Nat.eqb nk 1
+  else if t =? 33 then Nat.eqb nk 2
+  else if t =? 34 then Nat.eqb nk 3
+  else (t =? 24) || (t =? 25).
+
+Fixpoint cls_no_bitmap (c : cls) : bool :=
+  match c with
+  | Cls _ _ sb _ _ asc =>
+      match asc with None => true | Some _ => false end && match sb with Some s => cls_no_bitmap s | None => true end
+  end.
+
+
+(* canonical ranges at every level (Proofs/CharClassProofs.canonical), as a test *)
+Fixpoint sorted_fromb (prev : Z) (rs : list (Z * Z)) : bool :=
+  match rs with
+  | [] => true
+  | (a, b) :: t => (prev + 1 <? a) && (a <=? b) && sorted_fromb b t
+  end.
+Definition canonical_rangesb (rs : list (Z * Z)) : bool :=
+  match rs with
+  | [] => true
+  | (a, b) :: t => (a <=? b) && sorted_fromb b t
+  end.
+Fixpoint cls_canonicalb (c : cls) : bool :=
+  match c with
+  | Cls rs _ sb _ _ _ => canonical_rangesb rs && match sb with Some s => cls_canonicalb s | None => true end
+  end.
+Definition cls_okb (c : cls) : bool := cls_no_bitmap c && cls_canonicalb c.
+
+
+Fixpoint fo_wf (x : rnode) : bool :=
+  match x with
+  | RN t o ch m n str st kids =>
+      fo_arity_ok t (length kids) &&
+      (if is_set_family t then match st with Some c => cls_okb c | None => false end else true) &&
+      (match lk_of t with Some _ => (0 <=? m) && (m <=? n) && (m <? INF) | None => true end) &&
+      (if (t =? 26) || (t =? 27) then (0 <=? m) && (m <=? n) && (m <? INF) else true) &&
+      (if t =? 12 then negb (fo_is_nil str) && negb (useI o) else true) &&
+      (if (t =? 13) || (t =? 28) then true else negb (useI o)) &&
+      forallb fo_wf kids
+  end.
+
 
 (* reduceAtomic 587-592: `for child.T == NtAtomic { atomic = child; child = atomic.Children[0] }` *)
 Fixpoint fo_innermost_atomic (x : rnode) : rnode :=
